@@ -479,12 +479,26 @@ def check_samples(run: Run, R, n, activation):
                 parts.append((frac, [(el.number, el.isotope, None)]))
             else:
                 parts.append((frac, [(el.number, i, fn(el[i])) for i in el.isotopes]))
+        if fl == int(fl):
+            # a fluence is a number: the same value as an int / numpy scalar is the same fluence
+            import numpy as np
+            env.fluence = run.rng.choice([int, np.int64, np.float64, float])(fl)
         try:
-            if run.rng.random() < 0.5:
+            r = run.rng.random()
+            if r < 0.3:
                 # the same Sample object was used before, with another environment and rest list:
                 # a second calculation must start from scratch
                 s.calculate_activation(activation.ActivationEnvironment(fluence=fl * 3, Cd_ratio=2.0, fast_ratio=7.0),
                                        exposure=t * 0.5, rest_times=[0.0, 5.0, 9.0], abundance=fn)
+            elif r < 0.6:
+                # ... or with the very same environment object, exposure and abundance function, whose
+                # fluence / ratios and the sample's mass were different at the time (a flux scan)
+                keep = env.fluence, env.Cd_ratio, env.fast_ratio
+                env.fluence, env.Cd_ratio, env.fast_ratio = fl * 3, 2.0, 7.0
+                s.mass = mass * 2.5
+                s.calculate_activation(env, exposure=t, rest_times=rests if r < 0.45 else [0.0, 5.0, 9.0], abundance=fn)
+                env.fluence, env.Cd_ratio, env.fast_ratio = keep
+                s.mass = mass
             s.calculate_activation(env, exposure=t, rest_times=rests, abundance=fn)
             py = ("ok", [(R.index_of[id(k)], list(v)) for k, v in s.activity.items()],
                   [(R.index_of[id(k)], v) for k, v in getattr(s, "_activity_at_removal", {}).items()])
@@ -551,6 +565,28 @@ def check_samples(run: Run, R, n, activation):
                         break
 
 
+def fluence_types(run: Run, R, activation):
+    """activity() with the fluence given as int / numpy integer / numpy float: the same numbers as
+    with the float of the same value, up to the top of the range (1e16 n/cm^2/s)"""
+    import numpy as np
+    rows = sorted(R.isotopes)
+    picks = [rows[i] for i in range(0, len(rows), max(1, len(rows) // (40 if run.tier == "quick" else 400)))]
+    for z, a in picks:
+        for fl in (10 ** 16, 3 * 10 ** 15, 10 ** 12, 10 ** 8):
+            ref = py_activity(R, activation, z, a, 1.0, float(fl), 10.0, 50.0, 10.0, [0.0, 1.0, 24.0])
+            for conv in (int, np.int64, np.uint64, np.float64):
+                got = py_activity(R, activation, z, a, 1.0, conv(fl), 10.0, 50.0, 10.0, [0.0, 1.0, 24.0])
+                run.count(key=("fluence-type", z, a, fl, conv.__name__), nontrivial=ref[0] == "ok" and bool(ref[1]),
+                          tag="stream:fluence-type")
+                same = got[0] == ref[0] and (got[0] != "ok" or (set(got[1]) == set(ref[1]) and all(
+                    close(x, y, rel=1e-12, abs_=FLOOR) for i in ref[1] for x, y in zip(got[1][i], ref[1][i]))))
+                if not same:
+                    run.violation("activity() differs when the fluence %g is given as %s" % (fl, conv.__name__),
+                                  dict(kind="fluence-type", z=z, a=a, fluence=fl, type=conv.__name__),
+                                  reaction="act", clause="fluence-type", condition="none")
+                    break
+
+
 # --------------------------------------------------------------------------- entry points
 
 def private_table_edits(run: Run):
@@ -602,6 +638,7 @@ def run(run: Run) -> int:
         for i in range(0, len(cases), 20000):
             check_cases(run, R, cases[i:i + 20000], pool, activation)
         check_samples(run, R, 400 if quick else 10000, activation)
+        fluence_types(run, R, activation)
     finally:
         pool.close()
     run.exhaustive = True   # every row of activation.dat, every isotope with rows x the grid
@@ -620,6 +657,13 @@ def replay(data) -> int:
     recs = data.get("violations", []) + data.get("disagreements", [])
     for v in recs:
         inp = v["input"]
+        if inp.get("kind") == "fluence-type":
+            import numpy as np
+            conv = {"int": int, "int64": np.int64, "uint64": np.uint64, "float64": np.float64}[inp["type"]]
+            for c in (float, conv):
+                print(" fluence as %s:" % c.__name__, py_activity(R, activation, inp["z"], inp["a"], 1.0,
+                                                                 c(inp["fluence"]), 10.0, 50.0, 10.0, [0.0, 1.0, 24.0]))
+            continue
         if "z" not in inp:
             print("input:", inp)
             continue
